@@ -151,6 +151,8 @@ Record WF (e : ep) : Prop := mk_WF {
   wf_nopanic : panicked e = None;
   wf_nodup : NoDup (alloc e);
   wf_len : len (alloc e) <= max_ports e;
+  wf_buf : buf_ok (cfg_buffer (mx e)) (ports (mx e));
+  wf_lq : lq_ok (mx e);
   wf_inv : dead e = None -> Inv e
 }.
 
